@@ -28,6 +28,10 @@ CHECKS = {
    text="Generated snoopy.ini files (full inih grammar: sections, both separators, comments, inline comments, quotes, BOM, continuation lines, duplicates, CRLF, over-long lines; per-option valid spellings, near misses, garbage; numbers 0..10^15 with each suffix) are parsed by the production library and the values reported by its exported option-value API are compared with ini_model.py; length options are additionally checked for monotonicity over dense ladders; the output of the real `snoopyctl conf` is fed back as a config file and must reproduce every setting.",
    note="ini_model mirrors the documented inih build flags of this repository; open points (unparsable boolean/name: default or previous; length 0; trailing garbage; lone quote; doubled LOG_ prefix) accept several values. Effects of the parsed values on records are covered by C04 (priority, ident, sink)."),
 
+ "C11": dict(level="exploration", design="3/C11", technique="runtime monitoring of configuration histories, differential against a fresh process, ASan + allocator monitor",
+   text="Histories of 2..30 wrapped calls in one long-lived process with snoopy.ini rewritten between calls from a pool covering every option (valid, invalid, duplicated), emptied, deleted, made unreadable, replaced by a directory or corrupted; each call's sink gains must equal those of the same call made first in a fresh process under the same file state (pid normalised). Thread-safe and non-thread-safe builds, plain and ASan (double frees); an interposed allocator checks that a second pass over the history leaves no additional Snoopy allocation live.",
+   note="Destinations and records are observed at driver-owned sinks; the history runs as uid 12345 so that chmod 000 really makes the file unreadable."),
+
  "C14": dict(level="exploration", design="3/C14", technique="runtime monitoring under constructed uids",
    text="Children running under real uid R (0, 1, 999, 2^16-1, 2^16, 2^31-1, 2^31, 2^32-2) with an unrelated effective uid consult only_uid:L, exclude_uid:L and only_root through the production library for generated lists with near misses; outcomes are compared with exact set membership and only_uid xor exclude_uid.",
    note="Lists limited to one config line (about 85 uids)."),
